@@ -74,15 +74,23 @@ def gen_storage(vc, name, with_inv=True):
     a = SD._SessionStorage()
     b = SD._SessionStorage()
     inc = vc.map(name + ".incoming", key=K_INCOMING, val=V_SESSION)
+    # the storage under test keeps the default factory its own constructor installed; the
+    # reference one has the specified default
     if with_inv:
-        out = vc.map(name + ".outgoing", key=K_OUTGOING, val=V_SESSION, default=default_session, inv=session_inv)
+        out = vc.map(name + ".outgoing", key=K_OUTGOING, val=V_SESSION, like=a.outgoing, inv=session_inv)
     else:
-        out = vc.map(name + ".outgoing", key=K_OUTGOING, val=V_SESSION, default=default_session)
+        out = vc.map(name + ".outgoing", key=K_OUTGOING, val=V_SESSION, like=a.outgoing)
     a.incoming = inc
     b.incoming = vc.copy(inc)
     a.outgoing = out
-    b.outgoing = vc.copy(out)
+    b.outgoing = vc.copy(out, default=default_session)
     return a, b
+
+
+def other_state(vc, st):
+    """everything a session storage holds besides its two tables (its lock, ...): the tables
+    are the whole abstract state, so no operation may change anything else"""
+    return [(k, v) for k, v in vc.fields(st).items() if k not in ("incoming", "outgoing")]
 
 
 def ob_check_received_refines(vc):
@@ -97,8 +105,10 @@ def ob_check_received_refines(vc):
     region = ""
     if prev is not None and prev[1] == 0 and prev[0] and flag:
         region = "@prev_session_id_0"
+    before = other_state(vc, a)
     o1 = vc.outcome(vc.body(SD._SessionStorage.check_received), a, sender, multicast, flag, sid)
     o2 = vc.outcome(check_received, b, sender, multicast, flag, sid)
+    vc.check_eq(other_state(vc, a), before, "check_received.frame_no_state_besides_the_two_tables")
     vc.same_outcome(o1, o2, "check_received.refines" + region)
     vc.check_eq(a.incoming, b.incoming, "check_received.incoming_post" + region)
     vc.check_eq(a.outgoing, b.outgoing, "check_received.frame_outgoing")
@@ -111,10 +121,12 @@ def ob_assign_outgoing_refines(vc):
         r = None
     else:
         r = gen_addr(vc, "remote")
+    before = other_state(vc, a)
     o1 = vc.outcome(vc.body(SD._SessionStorage.assign_outgoing), a, r)
     vc.lock_discipline("st.outgoing", "assign_outgoing.outgoing_only_under_lock")
     o2 = vc.outcome(assign_outgoing, b, r)
     vc.same_outcome(o1, o2, "assign_outgoing.refines")
+    vc.check_eq(other_state(vc, a), before, "assign_outgoing.frame_no_state_besides_the_two_tables")
     vc.check_eq(a.outgoing, b.outgoing, "assign_outgoing.outgoing_post")
     vc.check_eq(a.incoming, b.incoming, "assign_outgoing.frame_incoming")
     if o1.kind == "ret":
